@@ -365,6 +365,7 @@ theorem authorize_safe (rc : RunCfg) (hp : Plain rc) (cfg : Config) (now : Time)
   have nf : ∀ rs c e, (RState.step rc rs c).2 ≠ .fail e := fun rs c e => step_no_fail rc hnf rs c e
   unfold authorizeH
   simp only [safeH_bind, safeH_guard, safeH_expectClient, safeH_expectNat _ _ _ _ _ (fun _ => calm_retErr _), safeH_optErr]
+  intro _
   refine ⟨guard_trivial _ _ (by guardless), ?_⟩
   intro client hcl _ _
   refine ⟨guard_trivial _ _ (by guardless), ?_⟩
